@@ -250,3 +250,28 @@ CHECKS["C10"] = dict(
         level_note="Trusts the YM2612/YM2608 F-number formula and master clocks (7670454 / 7987200 Hz) as the reference.",
     ),
 )
+
+CHECKS["C12"] = dict(
+    harnesses={"pbt": dict(src="c12_banksel.cpp", cfg="asan", kind="rc")},
+    quick=[dict(name="pbt", harness="pbt", workers=8, args=["--n", "4000"])],
+    thorough=[dict(name="pbt", harness="pbt", workers=16, args=["--n", "40000"], timeout=7200)],
+    rule="rapidcheck: bank layout = subset of melodic banks {0:0,0:1,1:0,1:1,8:0,126:0,127:0,64:3} and percussion kits {0,1,8,127,128,129,255}, each entry blank with p=0.4, "
+         "otherwise carrying a unique serial number in its operator bytes; installed through a generated WOPN image or the bank API; history of GM/GS/XG mode SysEx, GS drum-part "
+         "SysEx, CC0/CC32, opn2_rt_bankChange{MSB,LSB,}, program changes, note-ons on channels 0/3/9/10 and opn2_setInstrument replacements. After each note-on the serial "
+         "decoded from the tapped operator writes must be the one an independent resolver (written from the statement) predicts, or the note must be rejected without operator "
+         "writes when the chain ends blank; percussion pitch must match the entry's drum key. Non-trivial = a fallback step was needed, or a percussion/XG-SFX/GS-LSB rule applied.",
+    assumptions=[
+        "note-ons are left out of the verdict (counted) where the statement does not say whether the channel is percussion: drum part assigned outside GS mode or left over after leaving it, "
+        "MSB 126/127 in GM mode, MSB selected before the current mode was entered",
+        "for percussion kits the 'bank with LSB cleared' step is accepted both as the 128-aligned kit and as kit 0",
+        "opn2_rt_bankChangeMSB/LSB are documented aliases of CC0/CC32; opn2_rt_bankChange sets both parts",
+        "controller and program values stay within 0..127",
+    ],
+    min_nontrivial={"quick": 500, "thorough": 5000},
+    manifest=dict(
+        technique="model-based property testing: independent bank/program resolver vs instrument identity decoded from tapped operator register writes",
+        level_text="Generated layouts and selection histories; the instrument that actually reaches the chip is identified by a serial number hidden in its operator bytes and "
+                   "compared with the resolver's prediction after every note-on.",
+        level_note="Trusts the resolver's reading of the statement; states the statement leaves open are excluded and counted.",
+    ),
+)
